@@ -3,7 +3,7 @@
 use crate::codecs::*;
 use crate::gen;
 use crate::kmers::*;
-use crate::model::{CodecId, ALL_CODECS};
+use crate::model::{self, CodecId, ALL_CODECS};
 use crate::obs::*;
 use bio_seq::prelude::*;
 use proptest::prelude::*;
@@ -206,8 +206,57 @@ fn literals(_: &u8) -> PResult {
     Ok(Pass::new(true))
 }
 
+#[derive(Clone, Debug, Serialize, Deserialize)]
+pub struct RawIter {
+    pub codec: CodecId,
+    pub k: usize,
+    pub words: Vec<u64>,
+    pub count: u16,
+}
+
+/// k-mers of a sequence rebuilt from an arbitrary word image (alternative bit patterns included): the
+/// i-th k-mer holds exactly the bits of symbols i..i+K of the image — whether the iterator is stepped
+/// with next() or consumed through fold / for_each / last — and equals the i-th window.
+fn raw_iter(c: &RawIter) -> PResult {
+    let bits = c.codec.bits();
+    let cap = c.words.len() * 64 / bits;
+    let count = scale16(c.count, cap);
+    let tag = format!("{}/{}", c.codec.name(), c.k);
+    let r = no_panic(&format!("raw_kmers_panic/{tag}"), &format!("kmers::<{}>() over a {count}-symbol sequence rebuilt from raw words", c.k), || kcall_usize(c.codec, c.k, &UReq::IterRaw(c.words.clone(), count)))?;
+    let (by_next, by_fold, by_for_each, eq, last) = match r {
+        Some(Ok(URes::IterRaw(a, b, d, e, l))) => (a, b, d, e, l),
+        Some(Err(f)) => return Err(f),
+        other => fail!("harness/kmer_dispatch", "unexpected dispatch result {other:?}"),
+    };
+    let w = c.k * bits;
+    let exp: Vec<usize> = if count >= c.k {
+        (0..=count - c.k).map(|i| (0..w).fold(0usize, |acc, b| acc | ((model::bit_of(&c.words, i * bits + b) as usize) << b))).collect()
+    } else {
+        vec![]
+    };
+    ensure_eq!(by_next, exp, format!("raw_kmers_next/{tag}"), "packed integers of kmers::<{}>() stepped with next() over a raw image of {count} symbols", c.k);
+    ensure_eq!(by_fold, exp, format!("raw_kmers_fold/{tag}"), "packed integers of kmers::<{}>() consumed by fold over a raw image of {count} symbols", c.k);
+    ensure_eq!(by_for_each, exp, format!("raw_kmers_for_each/{tag}"), "packed integers of kmers::<{}>() consumed by for_each over a raw image of {count} symbols", c.k);
+    ensure_eq!(last, exp.last().copied(), format!("raw_kmers_last/{tag}"), "last() of kmers::<{}>() over a raw image of {count} symbols", c.k);
+    ensure!(eq.iter().all(|x| *x), format!("raw_kmers_eq_windows/{tag}"), "a k-mer of a raw image differs from the window at the same position");
+    Ok(Pass::new(exp.len() >= 2))
+}
+
 pub fn run(ctx: &mut Ctx) {
     let types = ktypes();
+    // raw images: codecs in which every bit pattern of the width is a symbol (alternative patterns)
+    for id in ALL_CODECS {
+        if !id.model().all_patterns_valid() {
+            continue;
+        }
+        let ks: Vec<usize> = types.iter().filter(|t| t.0 == id && t.1 == St::Usize).map(|t| t.2).collect();
+        if ks.is_empty() {
+            continue;
+        }
+        let cases = ctx.cases(300, 10);
+        let st = (proptest::sample::select(ks), proptest::collection::vec(prop_oneof![4 => any::<u64>(), 1 => Just(0u64), 1 => Just(u64::MAX)], 0..=3), any::<u16>()).prop_map(move |(k, words, count)| RawIter { codec: id, k, words, count });
+        ctx.forall(&format!("raw_images/{}", id.name()), cases, st, raw_iter);
+    }
     for id in ALL_CODECS {
         for st in ALL_ST {
             let ks: Vec<usize> = types.iter().filter(|t| t.0 == id && t.1 == st).map(|t| t.2).collect();
